@@ -70,7 +70,12 @@ func (g *c20PrimeGen) next(b int, nthRoot uint64, dir int) uint64 {
 func c20NewPS(logN int, Q, P []uint64) (*c20PS, error) { return c20NewPSFlag(logN, Q, P, true) }
 
 func c20NewPSFlag(logN int, Q, P []uint64, ntt bool) (*c20PS, error) {
-	lit := rlwe.ParametersLiteral{LogN: logN, Q: Q, NTTFlag: ntt}
+	return c20NewPSXs(logN, Q, P, ntt, nil)
+}
+
+// c20NewPSXs: parameters with the secret distribution xs (nil: the default).
+func c20NewPSXs(logN int, Q, P []uint64, ntt bool, xs ring.DistributionParameters) (*c20PS, error) {
+	lit := rlwe.ParametersLiteral{LogN: logN, Q: Q, NTTFlag: ntt, Xs: xs}
 	if len(P) > 0 {
 		lit.P = P
 	}
